@@ -52,6 +52,25 @@ func verifSetSeed(s uint64) {
 	verifRandState = s
 }
 
+// verifGetTag / verifSetTag: a label the harness puts on a goroutine; goroutines
+// it creates inherit it (runtime.newproc1), so every goroutine of a simulated
+// node carries the node's label.
+//
+//go:linkname verifGetTag
+func verifGetTag() uint64 { return getg().verifTag }
+
+//go:linkname verifSetTag
+func verifSetTag(t uint64) { getg().verifTag = t }
+
+// verifNextCount returns a per-goroutine counter (starts at 1 for every new goroutine).
+//
+//go:linkname verifNextCount
+func verifNextCount() uint64 {
+	gp := getg()
+	gp.verifCnt++
+	return gp.verifCnt
+}
+
 //go:nosplit
 func verifMix(z uint64) uint64 {
 	z = (z ^ (z >> 30)) * 0xbf58476d1ce4e5b9
@@ -104,15 +123,45 @@ s = must_replace(s, """	valgrindStackID uintptr
 }""", """	valgrindStackID uintptr
 
 	verifSel uint32 // simulation overlay: selects executed by this goroutine
+	verifTag uint64 // simulation overlay: inherited label (simulated node) of this goroutine
+	verifCnt uint64 // simulation overlay: per-goroutine draw counter of the harness
 }""", "runtime2.go")
 open(os.path.join(out, "runtime2.go.txt"), "w").write(s)
 
 # proc.go: reset the counter when a goroutine is created
 s = open(os.path.join(src, "proc.go")).read()
-s = must_replace(s, "	newg.gopc = callerpc\n", "	newg.gopc = callerpc\n	newg.verifSel = 0 // simulation overlay\n", "proc.go")
+s = must_replace(s, "	newg.gopc = callerpc\n", "	newg.gopc = callerpc\n	newg.verifSel = 0 // simulation overlay\n	newg.verifCnt = 0\n	newg.verifTag = 0\n	if callergp != nil {\n		newg.verifTag = callergp.verifTag\n	}\n", "proc.go")
+# sysmon must not take the P away from a goroutine that is in a (file) syscall
+# or has been running for 10 ms: with GOMAXPROCS=1 that would let real
+# durations decide which goroutine of the simulation runs next
+s = must_replace(s, "func retake(now int64) uint32 {\n	n := 0\n", "func retake(now int64) uint32 {\n	if verifRandState != 0 {\n		return 0 // simulation overlay\n	}\n	n := 0\n", "proc.go retake")
+# no runnext slot in a seeded run: a goroutine woken by a real-time timer of the
+# runtime (scavenger, ...) would otherwise displace the simulation's goroutine
+# that sits in runnext and thereby reorder the simulation's goroutines; and
+# with sysmon's preemption disabled runnext must be avoided anyway (see the
+# runtime's own comment in runqput)
+s = must_replace(s, "func runqput(pp *p, gp *g, next bool) {\n	if !haveSysmon && next {", "func runqput(pp *p, gp *g, next bool) {\n	if (!haveSysmon || verifRandState != 0) && next {", "proc.go runqput")
 open(os.path.join(out, "proc.go.txt"), "w").write(s)
 
+# sema.go: sync.Mutex switches to starvation mode after 1 ms of REAL waiting time,
+# which changes who gets the lock next. Inside a bubble of a seeded run the
+# mutex sees the bubble's fake time instead (which does not advance while
+# anybody is runnable), so the hand-over policy no longer depends on real time.
+s = open(os.path.join(src, "sema.go")).read()
+s = must_replace(s, """func internal_sync_nanotime() int64 {
+	return nanotime()
+}""", """func internal_sync_nanotime() int64 {
+	if verifRandState != 0 {
+		if b := getg().bubble; b != nil {
+			return b.now // simulation overlay
+		}
+	}
+	return nanotime()
+}""", "sema.go")
+open(os.path.join(out, "sema.go.txt"), "w").write(s)
+
 json.dump({"Replace": {
+    "@GOROOT@/src/runtime/sema.go": "@OVERLAY@/sema.go.txt",
     "@GOROOT@/src/runtime/runtime2.go": "@OVERLAY@/runtime2.go.txt",
     "@GOROOT@/src/runtime/proc.go": "@OVERLAY@/proc.go.txt",
     "@GOROOT@/src/runtime/rand.go": "@OVERLAY@/rand.go.txt",
